@@ -958,6 +958,28 @@ def set_method(X, st, selfv, name, args):
             return lambda x: z3.Or([x == X.B.pykey_term(i) for i in items] or [z3.BoolVal(False)])
         raise Unsupported("set operand")
 
+    def literal_items(v):
+        if isinstance(v, VObj) and isinstance(st.obj(v), CSet):
+            return set(st.obj(v).items)
+        seq = X.B.as_sequence(st, v)
+        if seq is not None:
+            return {X.B.pykey(x) for x in seq}
+        return None
+
+    if name == "update":
+        items = literal_items(args[0])
+        if isinstance(o, CSet) and items is not None:
+            st.set_obj(selfv, CSet(o.items | items))
+            return [Res(st, NONE)]
+        raise Unsupported("set.update on symbolic sets")
+    if name == "issuperset":
+        items = literal_items(args[0])
+        if items is None:
+            raise Unsupported("issuperset of a symbolic collection")
+        if isinstance(o, CSet):
+            return [Res(st, VBool(items <= o.items))]
+        mem = member_fn(selfv)
+        return [Res(st, VBool(z3.And([mem(X.B.pykey_term(i)) for i in items] or [z3.BoolVal(True)])))]
     if name == "union":
         a, b = o, st.obj(args[0])
         if isinstance(a, CSet) and isinstance(b, CSet):
